@@ -317,6 +317,12 @@ func c20DurClass(d int) string {
 	case 0, 1, 2, 59, 60, 61, 120, 3600:
 		return "dur:" + strconv.Itoa(d)
 	}
+	if d > 9223372036 {
+		return "dur:over-292-years"
+	}
+	if d > 1000000 {
+		return "dur:centuries"
+	}
 	return "dur:other"
 }
 
@@ -978,6 +984,9 @@ func c20CheckExpiry(ctx *vfCtx, c c20Case, key, key2 []byte, is *c20Issued) {
 
 var c20Durations = []int{0, 1, 2, 59, 60, 61, 120, 3600}
 
+// around and beyond 2^63 nanoseconds (292.27 years): 100, 292, 293, 300, 584, 1000 years and the boundary itself
+var c20HugeDurations = []int{100 * 365 * 86400, 9223372036, 9223372037, 293 * 365 * 86400, 300 * 365 * 86400, 18446744073, 18446744074, 1000 * 365 * 86400}
+
 var c20Servers = []string{"localhost", "example.org", "matrix.example.com:8448", "[::1]:8448", "xn--bcher-kva.example", "a"}
 
 var c20TrickyUsers = []string{"gen = 1", "user_id = @a:b", "time < 99999999999", "@a:b\nuser_id = @c:d", "@üser:ex.org", " ", "@a:b ", "0", "@a:b\x00", "@A:B"}
@@ -1044,13 +1053,18 @@ func c20GenCase(ops []string) func(t *rapid.T) c20Case {
 		} else {
 			c.User = c20GenUser(t, "user")
 		}
-		if rapid.IntRange(0, 4).Draw(t, "dur-kind") == 0 {
+		if k := rapid.IntRange(0, 9).Draw(t, "dur-kind"); k <= 1 {
 			c.Duration = rapid.IntRange(2, 1000000).Draw(t, "duration")
+		} else if k == 2 {
+			// lifetimes of centuries ("never expires"): seconds still fit easily, nanoseconds do not
+			c.Duration = rapid.SampledFrom(c20HugeDurations).Draw(t, "duration")
 		} else {
 			c.Duration = rapid.SampledFrom(c20Durations).Draw(t, "duration")
 		}
-		if rapid.IntRange(0, 4).Draw(t, "dur2-kind") == 0 {
+		if k := rapid.IntRange(0, 9).Draw(t, "dur2-kind"); k <= 1 {
 			c.Duration2 = rapid.IntRange(1, 1000000).Draw(t, "duration2")
+		} else if k == 2 {
+			c.Duration2 = rapid.SampledFrom(c20HugeDurations).Draw(t, "duration2")
 		} else {
 			c.Duration2 = rapid.SampledFrom(c20Durations).Draw(t, "duration2")
 		}
